@@ -1,3 +1,4 @@
+import Ndt.Props.C12Inv
 import Ndt.Gen.Bicomplex
 import Ndt.Props.C12Pow
 import Mathlib.Tactic.Ring
